@@ -232,9 +232,11 @@ def _make_empty_cog(
         )
 
         metas.append(meta)
-        im_shape = im_shape.shrink2()
-        if gbox is not None:
-            gbox = gbox.zoom_to(im_shape)
+        if idx < nlevels:
+            # no shrinking past the last level: a side <= 2**nlevels would reach 0 pixels
+            im_shape = im_shape.shrink2()
+            if gbox is not None:
+                gbox = gbox.zoom_to(im_shape)
 
     meta = metas[0]
     meta.overviews = tuple(metas[1:])
